@@ -1126,6 +1126,9 @@ impl<'a> GeneratorState<'a> {
 
     fn generate_asm_statement(&mut self, s: &str, size: Option<u32>) -> Result<(), Error> {
         self.inline(s, size)?;
+        // Inline assembly can change any flag
+        self.flags = FlagsState::Unknown;
+        self.carry_flag_ok = false;
         Ok(())
     }
 
@@ -1251,6 +1254,10 @@ impl<'a> GeneratorState<'a> {
             _ => self.asm(if load { LDA } else { STA }, expr, pos, false)?,
         };
         self.protected = false;
+        // Everything here but STA sets N and Z: they no longer describe what they did before
+        if load || matches!(expr, ExprType::X | ExprType::Y) {
+            self.flags = FlagsState::Unknown;
+        }
         Ok(())
     }
 
